@@ -21,6 +21,9 @@ from translate import rrel_tr
 ATTRS = ["kids", "members", "one", "links", "link", "parent", "zzz"]
 TYPES = ["Model", "Item", "Pkg", "Cls", "Anon", "Mem", "One", "Ref"]
 NAMEPOOL = ["a", "b", "c", "d"]
+REFCLS_OF = {"ref": "DRef", "sref": "SRef", "cref": "CRef"}    # keyword -> class (three match rules, each with its own split)
+KIND_OF = {v: k for k, v in REFCLS_OF.items()}
+VIAS = [("grammar", 3), ("register_wild", 4), ("register_each", 2), ("register_obj", 3)]
 CORPUS_DIR = os.path.join(core.VERIF, "corpus", "C11")
 
 # ------------------------------------------------------------------ expressions (AST as in props/c12)
@@ -195,8 +198,8 @@ def size(seq):
 class Gen:
     """A containment tree in the runner's pre-order numbering."""
 
-    def __init__(self, r, dup, refp=0.35):
-        self.r, self.dup, self.refp = r, dup, refp
+    def __init__(self, r, dup, refp=0.35, kinds=("ref",)):
+        self.r, self.dup, self.refp, self.kinds = r, dup, refp, list(kinds)
         self.cls = []       # class name per object index
         self.text = []
 
@@ -211,8 +214,9 @@ class Gen:
 
     def refs(self, refname):
         if self.r.chance(self.refp):
-            self.new("Ref")
-            self.text.append("ref %s" % refname())
+            kw = self.r.choice(self.kinds)
+            self.new(REFCLS_OF[kw])
+            self.text.append("%s %s" % (kw, refname()))
 
     def item(self, name, depth):
         r = self.r
@@ -350,30 +354,39 @@ def messy_join(r, names, sep):
 
 def gen_glue_skel(r, i):
     dup = r.chance(0.1)
-    g = Gen(r, dup, refp=0.12)
-    split = r.weighted([(None, 5), ("/", 3), (":", 1)])
+    # one to three kinds of references in the model, each kind with its own match rule / split
+    kinds = r.sample(["ref", "sref", "cref"], r.weighted([(1, 2), (2, 4), (3, 4)]))
+    g = Gen(r, dup, refp=0.3, kinds=kinds)
+    splits = {"ref": r.weighted([(None, 5), ("/", 2), ("::", 1)]),
+              "sref": r.weighted([("/", 5), ("--", 2), (None, 1)]),
+              "cref": r.weighted([("::", 5), (":", 3)])}
     cnt = [0]
 
     def refname():
         cnt[0] += 1
         return "@%d@" % (cnt[0] - 1)
     text = g.model(refname)
-    if "Ref" not in g.cls:
-        text += " ref " + refname()
-        g.cls.append("Ref")
+    have = {KIND_OF[c] for c in g.cls if c in KIND_OF}
+    for kw in kinds:                      # every chosen kind occurs at least once
+        if kw not in have:
+            text += " %s %s" % (kw, refname())
+            g.cls.append(REFCLS_OF[kw])
     ast, etext = gen_expr(r)
     while "links" in etext or "zzz" in etext:       # only attributes the grammar defines
         ast, etext = gen_expr(r)
     flags = "+p:" if r.chance(0.4) else ""
-    return {"kind": "glue", "template": text, "expr": flags + etext, "ast": ast, "proxy": bool(flags), "split": split,
-            "via": "grammar" if r.chance(0.6) else "register", "cls": None,
+    return {"kind": "glue", "template": text, "expr": flags + etext, "ast": ast, "proxy": bool(flags), "splits": splits,
+            "via": r.weighted(VIAS), "cls": None, "preload_wanted": r.chance(0.3),
             "cls_expected": g.cls, "dup": dup}
 
 
+def sep_of(c, kind):
+    return (c.get("splits") or {}).get(kind) or "."
+
+
 def fill_glue(r, c, rows):
-    sep = c["split"] or "."
     text = c.pop("template")
-    refs = [i for i, row in enumerate(rows) if row["cls"] == "Ref"]
+    refs = [i for i, row in enumerate(rows) if row["cls"] in KIND_OF]
     # prefer an expression that can resolve something from the first reference
     for _ in range(6):
         if directed_names(r, rows, c["ast"], refs[0], tries=6)[1]:
@@ -383,15 +396,32 @@ def fill_glue(r, c, rows):
             ast, etext = gen_expr(r)
         c["ast"], c["expr"] = ast, ("+p:" if c["proxy"] else "") + etext
     confs = []
+    parts = []
     for k, ri in enumerate(refs):
         names, J = directed_names(r, rows, c["ast"], ri, tries=14) if r.chance(0.9) else (gen_names(r), [])
         names = names or ["a"]
+        if len(names) == 1 and r.chance(0.5):      # multi-part names make the delimiter matter
+            names2, J2 = directed_names(r, rows, c["ast"], ri, tries=8)
+            if J2 and len(names2) > 1:
+                names, J = names2, J2
         for t in J:
             confs += rows[t]["conf"]
-        nm = messy_join(r, names, sep) if r.chance(0.2) else sep.join(names)
-        text = text.replace("@%d@" % k, nm)
-    c["model"] = text
+        parts.append(names)
     c["cls"] = r.choice(confs) if confs and r.chance(0.8) else r.choice(["Item", "Cls", "Mem", "Pkg"])
+
+    def render(kind_of_ref):
+        t = text
+        for k, ri in enumerate(refs):
+            kw = kind_of_ref(k, KIND_OF[rows[ri]["cls"]])
+            sep = sep_of(c, kw)
+            nm = messy_join(r, parts[k], sep) if r.chance(0.2) else sep.join(parts[k])
+            t = re.sub(r"\b(ref|sref|cref) @%d@" % k, lambda m_: "%s %s" % (kw, nm), t)
+        return t
+    c["model"] = render(lambda k, kw: kw)
+    if c.pop("preload_wanted", False):
+        # the same tree loaded first with the reference kinds rotated (other match rules, other delimiters)
+        order = ["ref", "sref", "cref"]
+        c["preload"] = [render(lambda k, kw: order[(order.index(kw) + 1 + k) % 3])]
 
 
 # ------------------------------------------------------------------ Coq terms
@@ -842,9 +872,9 @@ def run(chk):
                 machinery(ci, "flags of the parsed expression differ", {"text": c["expr"], "tree": o["tree"]})
                 continue
             for ri, ref in enumerate(o["refs"]):
-                names = split_names(ref["name"], c["split"] or ".")
+                names = split_names(ref["name"], sep_of(c, ref["kind"]))
                 F = fuel(rows, names)
-                qterms.append("runq %d m %s %d (split_name %s %s) (Some %s) %s" % (F, c_seq(sq), ref["i"], c_str(c["split"] or "."),
+                qterms.append("runq %d m %s %d (split_name %s %s) (Some %s) %s" % (F, c_seq(sq), ref["i"], c_str(sep_of(c, ref["kind"])),
                               c_str(ref["name"]), c_str(c["cls"]), core.coq_bool(c["proxy"])))
                 meta.append((ci, ri, sq, names))
         if qterms:
@@ -922,8 +952,14 @@ def run(chk):
                 exp.append(mres)
                 anynone |= mres == "None"
                 anypost |= mres == "Postponed"
-            desc = {"model_text": c["model"], "expr": c["expr"], "via": c["via"], "split": c["split"], "cls": c["cls"], "corpus": c.get("corpus")}
-            chk.count(("glue", c["model"], c["expr"], c["via"], c["split"], c["cls"]), nontrivial=True)
+            desc = {"model_text": c["model"], "expr": c["expr"], "via": c["via"], "splits": c.get("splits"), "cls": c["cls"],
+                    "preload": c.get("preload"), "corpus": c.get("corpus")}
+            chk.count(("glue", c["model"], c["expr"], c["via"], json.dumps(c.get("splits"), sort_keys=True), c["cls"], json.dumps(c.get("preload"))), nontrivial=True)
+            kinds_here = sorted({ref["kind"] for ref in o["refs"]})
+            seps_here = sorted({sep_of(c, k) for k in kinds_here})
+            chk.stat("glue_delimiters_in_model=%d" % len(seps_here))
+            if c.get("preload"):
+                chk.stat("glue_with_preload")
             chk.stat("glue:" + o["r"])
             chk.stat("glue_via=" + c["via"])
             if None in exp or "OOF" in exp:
